@@ -163,6 +163,13 @@ struct Thr { unsigned tid; Op* ops; size_t nops; Blk* tbl; size_t ntbl; unsigned
 static unsigned nEpochs = 1;
 static unsigned epochGo;                      // epochs the test thread has opened (switches and probe done)
 static unsigned epochDone;                    // worker-epochs finished
+// the gate between epochs: blocking waits (a thread that spins would hide a deadlocked child from the no-progress detector)
+static pthread_mutex_t gateMx = PTHREAD_MUTEX_INITIALIZER;
+static pthread_cond_t gateCv = PTHREAD_COND_INITIALIZER;
+static void gateOpen(unsigned e) { pthread_mutex_lock(&gateMx); epochGo = e; pthread_cond_broadcast(&gateCv); pthread_mutex_unlock(&gateMx); }
+static void gateWaitOpen(unsigned e) { pthread_mutex_lock(&gateMx); while (epochGo <= e) pthread_cond_wait(&gateCv, &gateMx); pthread_mutex_unlock(&gateMx); }
+static void gateDone() { pthread_mutex_lock(&gateMx); epochDone++; pthread_cond_broadcast(&gateCv); pthread_mutex_unlock(&gateMx); }
+static void gateWaitDone(unsigned n) { pthread_mutex_lock(&gateMx); while (epochDone < n) pthread_cond_wait(&gateCv, &gateMx); pthread_mutex_unlock(&gateMx); }
 static const char* FILE_ = "c10_script.cpp";
 static char neverAllocated[64];
 static volatile int startFlag;
@@ -263,11 +270,11 @@ static void* threadMain(void* a)
     for (unsigned e = 0; e < nEpochs; e++) {
         // the switches in front of this epoch happen before the first call made in it, the last call of the epoch happens
         // before the next switches
-        while (__atomic_load_n(&epochGo, __ATOMIC_ACQUIRE) <= e) sched_yield();
+        gateWaitOpen(e);
         runOps(t);
         if (t->pc < t->nops) t->pc++;              // the ":e" the thread stopped at
         epochCounters(t, e);
-        __atomic_add_fetch(&epochDone, 1, __ATOMIC_RELEASE);
+        gateDone();
     }
     return nullptr;
 }
@@ -334,6 +341,7 @@ static int cmpOut(const void* a, const void* b)
 
 static void scenarioChild(Toks& t, int wfd)
 {
+    dup2(2, 1);                      // whatever the library prints (a failure outside any test, ...) must not reach the stream of observations
     unsigned long long seed = t.u();
     outAlloc = t.n();
     unsigned n = (unsigned) t.u();
@@ -427,10 +435,10 @@ static void scenarioChild(Toks& t, int wfd)
         unsigned a0 = d->getCurrentAllocationNumber();
         probe();
         probeAdv += d->getCurrentAllocationNumber() - a0;
-        __atomic_store_n(&epochGo, e + 1, __ATOMIC_RELEASE);
+        gateOpen(e + 1);
         if (eps[e].reg) eps[e].reg->runAllTests(*result);          // thread 0: one registered test per stretch of its script
         epochCounters(&thr[0], e);
-        while (__atomic_load_n(&epochDone, __ATOMIC_ACQUIRE) < (n - 1) * (e + 1)) sched_yield();
+        gateWaitDone((n - 1) * (e + 1));
     }
     for (unsigned i = 1; i < n; i++) pthread_join(thr[i].th, nullptr);
     inTest = 0;
